@@ -86,7 +86,7 @@ class Shadow:
 def gen_walk(rng, cap, nops):
     sh = Shadow(cap)
     ops = []
-    hist = {"near_cap": 0, "near_space": 0, "small": 0, "mid": 0}
+    hist = {"near_cap": 0, "near_space": 0, "small": 0, "mid": 0, "huge": 0}
     for _ in range(nops):
         r = rng.random()
         if r < 0.5:
@@ -105,6 +105,11 @@ def gen_walk(rng, cap, nops):
                 n = rng.randrange(0, max(1, cap // 2))
                 hist["mid"] += 1
             n = max(0, min(n, cap + 1))
+            if rng.random() < 0.04:
+                # sizes at the top of uint32 (size + framing wraps), around 2^31 and 2^32 - capacity: must be refused
+                n = rng.choice([2**32 - 1 - rng.randrange(0, 17), 2**32 - cap + rng.randrange(-9, 10), 2**31 + rng.randrange(-9, 10), 2**32 - 8, 2**32 - 4])
+                n = max(0, min(n, 2**32 - 1))
+                hist["huge"] += 1
             ops.append("a:%d" % n)
             sh.alloc(n)
         elif r < 0.85:
